@@ -81,7 +81,7 @@ pub const C13_FAULTS: &[&str] = &["connection_future_dropped", "token_dropped_un
 pub const C13_PROBES: &[&str] = &[
     "two_pending_two_releases_between_polls", "fresh_request_barged", "limit_reached", "request_ready_first_poll",
     "request_woken_then_ready", "clone_used", "run_to_completion", "shutdown_future_polled", "shutdown_ready_after_last_token",
-    "clone_shutdown_independent", "connection_task_interleaved", "connection_task_finished", "huge_buffer_size_config", "request_repolled_with_new_waker", "up_to_40_requests_queued",
+    "clone_shutdown_independent", "connection_task_interleaved", "connection_task_finished", "huge_buffer_size_config", "request_repolled_with_new_waker", "up_to_40_requests_queued", "history_of_2000plus_operations",
 ];
 
 fn run_token(cx: &mut Ctx, token: Token, mode: u32, bufsize: usize, runner_shut: bool) -> Result<(), Violation> {
@@ -161,7 +161,10 @@ pub fn c13(cx: &mut Ctx) -> VResult {
     let many = cx.ch.chance(1, 25);
     let max_pending = if many { 40 } else { 5 };
     if many { cx.probe("up_to_40_requests_queued"); }
-    let steps = if many { cx.ch.range(60, 260) } else { cx.ch.range(6, 70) };
+    // and one in 250 is a long history (thousands of acquire/release cycles)
+    let long = !many && cx.ch.chance(1, 250);
+    if long { cx.probe("history_of_2000plus_operations"); }
+    let steps = if long { cx.ch.range(2000, 5000) } else if many { cx.ch.range(60, 260) } else { cx.ch.range(6, 70) };
     // in half of the histories every poll of a get_token future hands it a Waker of its own; only the one from the
     // most recent poll counts as "the request was woken" (the Future::poll contract)
     let fresh_wakers = cx.ch.chance(1, 2);
